@@ -462,14 +462,19 @@ func smallCacheSpace(maxLen int) *explore.Space {
 func perNodeSpace(nrules int) *explore.Space {
 	const missing = "\x00missing" // the r element has no s attribute: the subject is an empty node-set, i.e. ''
 	subs := []string{"a", "b", "ab", "", missing}
-	pats := []string{"a", "^b", "b$", "a+b", "(a|b)b", "(", "x", "^$", "b*"}
+	pats := []string{"a", "^b", "b$", "a+b", "(a|b)b", "(", "x", "^$", "b*", "(a)(b)"}
 	combos := len(subs) * len(pats)
 	total := 1
 	for i := 0; i < nrules; i++ {
 		total *= combos
 	}
 	exprs := []string{"//r[matches(@s, string(@p))]", "//r[matches(@s, concat(@p, ''))]", "//r[not(matches(string(@s), string(@p)))]",
-		"//r[replace(@s, string(@p), 'z') != @s]", "//r[matches(@s, string(../r[1]/@p))]"}
+		"//r[replace(@s, string(@p), 'z') != @s]", "//r[matches(@s, string(../r[1]/@p))]",
+		// one replacement text with group references, patterns whose group count changes from candidate to candidate
+		"//r[replace(@s, string(@p), '[$1]') != @s]", "//r[replace(@s, string(@p), '$1$2') = '']",
+		// $n directly followed by a word character: decided only for candidates whose pattern HAS group n
+		// (Go reads "$1x" as a group NAMED 1x when nothing rewrites it; the property fixes "$n = group n" for existing groups)
+		"//r[contains(replace(@s, string(@p), '[$1x]'), 'x]')]", "//r[contains(replace(@s, string(@p), '$1$2x'), 'bx')]"}
 	return &explore.Space{
 		Name: fmt.Sprintf("RegexPerNode-%d", nrules), Desc: fmt.Sprintf("documents with %d <r s= p=> elements over %d subjects x %d patterns each (one invalid): predicates whose pattern is computed from the candidate", nrules, len(subs), len(pats)),
 		Size:  total,
@@ -506,6 +511,7 @@ func perNodeSpace(nrules int) *explore.Space {
 				// reference: per rule verdict with Go regexp; an invalid pattern that is
 				// reached makes the whole evaluation a deliberate error
 				var want []int
+				unclear := map[int]bool{}
 				invalid := false
 				for i := 0; i < nrules && !invalid; i++ {
 					p := ps[i]
@@ -526,6 +532,20 @@ func perNodeSpace(nrules int) *explore.Space {
 					case 3:
 						// '' != (empty node-set) is false whatever the left side
 						keep = !miss[i] && re.ReplaceAllString(ss[i], "z") != ss[i]
+					case 5:
+						keep = !miss[i] && re.ReplaceAllString(ss[i], "[${1}]") != ss[i]
+					case 6:
+						keep = re.ReplaceAllString(ss[i], "${1}${2}") == ""
+					case 7:
+						keep = strings.Contains(re.ReplaceAllString(ss[i], "[${1}x]"), "x]")
+						if re.NumSubexp() < 1 {
+							unclear[idx(i)] = true
+						}
+					case 8:
+						keep = strings.Contains(re.ReplaceAllString(ss[i], "${1}${2}x"), "bx")
+						if re.NumSubexp() < 2 {
+							unclear[idx(i)] = true
+						}
 					}
 					if keep {
 						want = append(want, idx(i))
@@ -545,7 +565,7 @@ func perNodeSpace(nrules int) *explore.Space {
 				if invalid {
 					ok = o.Kind == "panic-error"
 				} else {
-					ok = o.Kind == "nodes" && eng.EqInts(o.Nodes, append([]int{}, want...))
+					ok = o.Kind == "nodes" && eng.EqInts(dropInts(o.Nodes, unclear), dropInts(want, unclear))
 				}
 				if ok {
 					w.EngOutcome("agree")
@@ -557,13 +577,28 @@ func perNodeSpace(nrules int) *explore.Space {
 				if invalid {
 					exp = "^panic-error"
 				}
-				w.Violation(ec.toCase("eval", exp, o.String(), "per-node-pattern", "C16|RegexPerNode|"+es))
+				c := ec.toCase("eval", exp, o.String(), "per-node-pattern", "C16|RegexPerNode|"+es)
+				if len(unclear) > 0 {
+					c.Kind = "item" // replayed by re-running the item (the verdict ignores some candidates)
+					c.Note = fmt.Sprintf("candidates whose pattern lacks the referenced group are not judged: %v", unclear)
+				}
+				w.Violation(c)
 			}
 			if item == total/3 {
 				w.Sample(exprs[0] + " on " + t.String())
 			}
 		},
 	}
+}
+
+func dropInts(a []int, drop map[int]bool) []int {
+	out := []int{}
+	for _, x := range a {
+		if !drop[x] {
+			out = append(out, x)
+		}
+	}
+	return out
 }
 
 func init() {
